@@ -451,9 +451,9 @@ type variant struct {
 // planBatches fixes the schema sets of this run: drawn with rapid's example generator from seeds
 // derived from VERIF_SEED (and the shard), so a run is reproducible.
 func planBatches() []*batchSpec {
-	n := 2
+	n := 3
 	if pbt.Thorough() {
-		n = 5
+		n = 4
 	}
 	var out []*batchSpec
 	for i := 0; i < n; i++ {
@@ -461,9 +461,9 @@ func planBatches() []*batchSpec {
 		b := &batchSpec{idx: k}
 		kind := k % 5
 		if !pbt.Thorough() {
-			kind = []int{int(pbt.Seed) % 2, 2}[i] // quick: a plain set (well-known imports on odd seeds) and an adversarial one
+			kind = []int{int(pbt.Seed) % 2, 3, 2}[i] // quick: two plain sets (well-known imports on odd seeds) and an adversarial one
 		}
-		b.opts = schema.Opts{MaxFiles: 8, Lazy: true}
+		b.opts = schema.Opts{MaxFiles: 8, Lazy: true, SourceInfo: true}
 		b.lvls = []string{"open", "hybrid", "opaque"}
 		if pbt.Thorough() {
 			b.lvls = append(b.lvls, "hybrid+protoopaque")
@@ -489,7 +489,7 @@ func planBatches() []*batchSpec {
 			b.opts.Syntaxes = [][]string{{"proto2", "proto3"}, {"2023", "2024"}, {"proto3", "2024"}}[k%3]
 		}
 		seed := int(pbt.DeriveSeed(fmt.Sprintf("batch-%d", k)) & 0x7fffffff)
-		// a set worth a build: at least 3 files and 8 messages (the example generator favours small values)
+		// a set worth a build: at least 4 files and 20 messages, else the richest of 40 (the example generator favours small values)
 		var best []*descriptorpb.FileDescriptorProto
 		nbest := -1
 		for try := 0; try < 40; try++ {
@@ -501,7 +501,7 @@ func planBatches() []*batchSpec {
 			if nm := len(schema.Messages(reg, files)); nm > nbest {
 				best, nbest = files, nm
 			}
-			if len(files) >= 3 && nbest >= 8 {
+			if len(files) >= 4 && nbest >= 20 {
 				break
 			}
 		}
